@@ -1,6 +1,7 @@
 import Swat4.Lemmas.LockFencing
 import Swat4.Gen.Facts
 import Swat4.Lemmas.StoreSpecRefine
+import Swat4.Lemmas.ListingTotal
 /-!
 # C09 — Concurrent registry writers never lose an update, readers never fail
 
@@ -506,3 +507,115 @@ theorem facts_lock_setnx :
   decide
 
 end Swat4.C09
+
+/-! # Additions (review round 2): a listing racing with a remove
+
+"A listing … never fails because a server was removed in the meantime" held so far by type only (`hmgetItems` returns a
+list; missing items are skipped), and no example had a remove *between* the reader's index read and its `HMGET`.
+`listing_skips_removed_witness` is that run; `C09_listing_total` packages, for every schedule: the `Filter` call stays a
+reader, has finished once it was scheduled twice, and whatever it finished with are committed versions. -/
+namespace Swat4.C09
+open Swat4 Std
+
+namespace Example
+
+def svrB : Server := { svr with addr := ⟨16909061, 10480⟩ }
+
+/-- two `Add`s (addresses A = `svr`, B = `svrB`), a `Remove` of A carrying the stored version 1, and a `Filter` call
+without criterion (everything), on the empty keyspace -/
+def s2 : Sys :=
+  { store := {}, clock := 0, nextTok := 3,
+    clients := [.writer (Writer.start ⟨.add, svr, keep⟩ 0), .writer (Writer.start ⟨.add, svrB, keep⟩ 1),
+                .writer (Writer.start ⟨.remove, { svr with version := 1 }, keep⟩ 2), .reader ⟨.index {}⟩] }
+
+theorem clients2_cases {i : Nat} {w : Writer} (h : s2.clients[i]? = some (.writer w)) :
+    (i = 0 ∧ w = Writer.start ⟨.add, svr, keep⟩ 0) ∨ (i = 1 ∧ w = Writer.start ⟨.add, svrB, keep⟩ 1) ∨
+    (i = 2 ∧ w = Writer.start ⟨.remove, { svr with version := 1 }, keep⟩ 2) := by
+  match i, h with
+  | 0, h => left; simp [s2] at h; exact ⟨rfl, h.symm⟩
+  | 1, h => right; left; simp [s2] at h; exact ⟨rfl, h.symm⟩
+  | 2, h => right; right; simp [s2] at h; exact ⟨rfl, h.symm⟩
+  | 3, h => simp [s2] at h
+  | i + 4, h => simp [s2] at h
+
+theorem init_s2 : Init s2 := by
+  refine ⟨?_, ?_, ?_, ?_, ?_, ?_, ?_, rfl⟩
+  · intro i w h
+    rcases clients2_cases h with ⟨_, rfl⟩ | ⟨_, rfl⟩ | ⟨_, rfl⟩ <;> decide
+  · intro i j wi wj hi hj ht
+    rcases clients2_cases hi with ⟨rfl, rfl⟩ | ⟨rfl, rfl⟩ | ⟨rfl, rfl⟩ <;>
+      rcases clients2_cases hj with ⟨rfl, rfl⟩ | ⟨rfl, rfl⟩ | ⟨rfl, rfl⟩ <;> first | rfl | cases ht
+  · intro i w h
+    rcases clients2_cases h with ⟨_, rfl⟩ | ⟨_, rfl⟩ | ⟨_, rfl⟩ <;> exact ⟨rfl, rfl⟩
+  · intro i w h
+    rcases clients2_cases h with ⟨_, rfl⟩ | ⟨_, rfl⟩ | ⟨_, rfl⟩ <;> exact AddrPreserving.keyPreserving keep_ap
+  · intro k r h; simp [s2] at h
+  · intro k t h; simp [s2, RStore.lastOf] at h
+  · intro k c h; simp [s2] at h
+
+/-- both `Add`s run to completion, then the reader's index pipeline -/
+def listPre : List Ev := List.replicate 11 (.step 0) ++ List.replicate 11 (.step 1) ++ [.step 3]
+
+/-- the `Remove` of A runs to completion while the reader sits between its index read and its `HMGET` -/
+def listRemove : List Ev := List.replicate 11 (.step 2)
+
+set_option maxRecDepth 200000 in
+/-- **`listing_skips_removed_witness`** (clause "never fails because a server was removed in the meantime"): after both
+`Add`s the reader's index read yields the keys of A and B and the reader stands at `HMGET [A, B]`; the `Remove` of A then
+commits (A's record is gone, the log has three entries); the reader's `HMGET` finds nil for A, **skips it**, and the
+call returns `[B]` at its committed version 1 — no error, no stale A. -/
+theorem listing_skips_removed_witness :
+    Init s2 ∧
+    (s2.run listPre).clients[3]? = some (.reader ⟨.hmget [svr.addr.key, svrB.addr.key]⟩) ∧
+    (s2.run (listPre ++ listRemove)).store.items[svr.addr.key]? = none ∧
+    (s2.run (listPre ++ listRemove)).log.length = 3 ∧
+    (s2.run (listPre ++ listRemove)).clients[3]? = some (.reader ⟨.hmget [svr.addr.key, svrB.addr.key]⟩) ∧
+    (s2.run (listPre ++ listRemove ++ [.step 3])).clients[3]? = some (.reader ⟨.done [{ svrB with version := 1 }]⟩) :=
+  ⟨init_s2, rfl, by decide, rfl, rfl, rfl⟩
+
+end Example
+
+/-- **A listing interleaved with writers is total and returns committed versions** (clauses "returns, for every server
+it reports, a committed version of that server and never fails because a server was removed in the meantime").  From any
+well-formed initial system in which client `i` is a `Filter` call about to start (`.index fs`), after **any** schedule
+(any interleaving with writers — removes included —, lease expiries, ticks):
+(a) client `i` is still a reader (it has no failure state to go to);
+(b) if it was scheduled at least twice (`stepsOf i es ≥ 2`: index pipeline, `HMGET`) it has finished with some result;
+(c) whenever it has finished, every record of its result is a committed version: the record an initial row held, or
+    exactly the record saved by a logged commit (`Committed`; the log only grows — `Sys.run_log_prefix` — so a record
+    that was committed at the instant of the `HMGET` stays committed). -/
+theorem C09_listing_total {s0 : Sys} (h : Init s0) (i : Nat) (fs : FilterSet)
+    (hc : s0.clients[i]? = some (.reader ⟨.index fs⟩)) (es : List Ev) :
+    (∃ r', (s0.run es).clients[i]? = some (.reader r')) ∧
+    (2 ≤ stepsOf i es → ∃ rs, (s0.run es).clients[i]? = some (.reader ⟨.done rs⟩)) ∧
+    (∀ rs, (s0.run es).clients[i]? = some (.reader ⟨.done rs⟩) → ∀ r ∈ rs, Committed s0.store (s0.run es).log r) := by
+  obtain ⟨r', h1, h2⟩ := reader_rank_run i s0 _ hc es
+  refine ⟨⟨r', h1⟩, fun hn => ?_, ?_⟩
+  · have : r'.rank = 0 := by
+      have : (⟨.index fs⟩ : Reader).rank = 2 := rfl
+      omega
+    obtain ⟨rs, rfl⟩ := Reader.done_of_rank_zero this
+    exact ⟨rs, h1⟩
+  · have h0 : RInv s0.store s0 i := by
+      intro rs hrs
+      rw [hc] at hrs
+      simp only [Option.some.injEq, Client.reader.injEq, Reader.mk.injEq] at hrs
+      cases hrs
+    exact rinv_run (Swat4.inv_init h) (loginv_init h) h0 es
+
+/-- log-prefix monotonicity: the commit log after any schedule extends the log before it (nothing is ever unlogged) -/
+theorem C09_log_prefix (s : Sys) (es : List Ev) : ∃ L, (s.run es).log = s.log ++ L := s.run_log_prefix es
+
+set_option maxRecDepth 200000 in
+/-- non-vacuity of `C09_listing_total` on the witness run: the reader (client 3 of `Example.s2`, at `.index {}`) was
+scheduled twice, has finished with `[B@1]`, and that record is the one saved by a logged commit -/
+example :
+    stepsOf 3 (Example.listPre ++ Example.listRemove ++ [.step 3]) = 2 ∧
+    Committed Example.s2.store (Example.s2.run (Example.listPre ++ Example.listRemove ++ [.step 3])).log
+      { Example.svrB with version := 1 } := by
+  refine ⟨by decide, ?_⟩
+  exact (C09_listing_total Example.init_s2 3 {} rfl _).2.2 _ Example.listing_skips_removed_witness.2.2.2.2.2
+    _ (List.mem_singleton.2 rfl)
+
+end Swat4.C09
+
